@@ -26,6 +26,8 @@ TYPE_NAME = {"Source": "SOURCE", "PLoad": "LOAD", "ILoad": "LOAD", "RLoad": "LOA
 class Table:
     """Tabulated parameter: io axis (strictly increasing, >= 0), vi rows (strictly increasing, > 0), z[row][col]."""
 
+    neg_rows = False
+
     def __init__(self, io, vi, z, neg_rows=False):
         self.io, self.vi, self.z = list(io), list(vi), [list(r) for r in z]
         # neg_rows: the table is HANDED to the constructor the way a negative-rail datasheet table is written - vi rows
